@@ -43,14 +43,29 @@ structure Config where
   targetScalar : Bool := true
   sanity : Bool := true
   typesOk : Bool := true            -- every isinstance check of the sanity loop passes
-  controllerNone : Bool := false     -- sampling_iteration_controller is None …
-  nSamples : Nat := 1                -- … which is only allowed for n_samples == 0
+  ctrlNoneAt : List Bool := []       -- per global iteration: sampling_iteration_controller(i) is None (default false) …
+  nSamplesAt : List Nat := []        -- … which is only allowed where n_samples(i) == 0 (default 1); constants = constant lists
   fresh0 : Bool := true              -- fresh_stochasticity(0)
   dryRun : Bool := false
   terminateAt : Option Nat := none   -- first global iteration at which terminate_callback returns True
   returnFinal : Bool := false
   prevOutDir : Bool := false         -- an earlier call in this process had an output directory
   deriving Repr
+
+/-- n_samples(i) and "controller(i) is None" -/
+def Config.nAt (c : Config) (i : Nat) : Nat := (c.nSamplesAt[i]?).getD 1
+def Config.ctrlNone (c : Config) (i : Nat) : Bool := (c.ctrlNoneAt[i]?).getD false
+
+/-- the sanity loop's `myassert(n_samples(i) == 0)` fails for some iteration of this call -/
+def Config.ctrlBad (c : Config) : Bool :=
+  (List.range (c.total - c.initialIndex)).any (fun k => c.ctrlNone (c.initialIndex + k) && c.nAt (c.initialIndex + k) != 0)
+
+/-- number of samples in the list returned after `its` minimised iterations: that of the last one carried out
+    (MAP iteration: 1; VI iteration: 2 n mirrored samples; nothing carried out: the single initial sample) -/
+def Config.nResult (c : Config) (its : Nat) : Nat :=
+  if its = 0 then 1 else
+    let last := c.initialIndex + its - 1
+    if c.nAt last = 0 then 1 else 2 * c.nAt last
 
 /-- which version of the code -/
 inductive Version where
@@ -98,12 +113,12 @@ def isOk {α : Type} : Except ErrKind α → Bool
 def valid (c : Config) : Bool :=
   validB c.exportIsDict c.exportHasPickle c.initialIndexIsInt c.strategyValid c.outDir c.resume
     (decide (c.initialIndex < c.total)) (c.transitionsArity == 1) (c.inspectArity == 1 || c.inspectArity == 2)
-    (c.terminateArity == 1) c.targetScalar c.sanity c.typesOk (c.controllerNone && c.nSamples != 0) c.fresh0
+    (c.terminateArity == 1) c.targetScalar c.sanity c.typesOk c.ctrlBad c.fresh0
 
 def precheck (v : Version) (c : Config) : Except ErrKind Unit :=
   precheckB v c.exportIsDict c.exportHasPickle c.initialIndexIsInt c.strategyValid c.outDir c.resume
     (decide (c.initialIndex < c.total)) (c.transitionsArity == 1) (c.inspectArity == 1 || c.inspectArity == 2)
-    (c.terminateArity == 1) c.targetScalar c.sanity c.typesOk (c.controllerNone && c.nSamples != 0) c.fresh0
+    (c.terminateArity == 1) c.targetScalar c.sanity c.typesOk c.ctrlBad c.fresh0
 
 /-- the loop `for iglobal in range(j, total)` as far as push/pop and early exits are concerned:
     returns (iterations minimised, stack depth change). `fuel = total - j`. -/
@@ -128,7 +143,7 @@ def expectedShape (c : Config) : Shape :=
     | some t => if c.initialIndex ≤ t ∧ t < c.total then t - c.initialIndex + 1 else c.total - c.initialIndex
     | none => c.total - c.initialIndex
   { iterations := its
-    nResult := if its = 0 then 1 else if c.nSamples = 0 then 1 else 2 * c.nSamples
+    nResult := c.nResult its
     arity := if c.returnFinal then 2 else 1
     writesFiles := c.outDir && its != 0
     stackDelta := 0 }
@@ -140,7 +155,7 @@ def accepts (v : Version) (c : Config) : Except ErrKind Shape :=
   | .ok _ =>
     let r := loopEffect v c (c.total - c.initialIndex) c.initialIndex
     .ok { iterations := r.1
-          nResult := if r.1 = 0 then 1 else if c.nSamples = 0 then 1 else 2 * c.nSamples
+          nResult := c.nResult r.1
           arity := if c.returnFinal then 2 else 1
           writesFiles := (c.outDir || (v == .asFound && c.prevOutDir)) && r.1 != 0
           stackDelta := r.2 }
